@@ -1,0 +1,26 @@
+//go:build verif
+
+// Accessors for the verification harness in /verif (build tag "verif").
+// This file only adds exported wrappers around unexported items; it changes
+// no behaviour and is absent from normal builds.
+
+package lifecycle
+
+import (
+	"context"
+
+	"github.com/conduitio/conduit/pkg/lifecycle/stream"
+	"github.com/conduitio/conduit/pkg/pipeline"
+)
+
+// VerifPublishNodes registers nodes as the running pipeline pl in
+// runningPipelines, the way runPipeline publishes a run, without building or
+// running anything (the harness runs the nodes itself).
+func (s *Service) VerifPublishNodes(pl *pipeline.Instance, nodes []stream.Node) {
+	s.runningPipelines.Set(pl.ID, &runnablePipeline{pipeline: pl, n: nodes})
+}
+
+// VerifBuildDLQHandlerNode wraps buildDLQHandlerNode.
+func (s *Service) VerifBuildDLQHandlerNode(ctx context.Context, pl *pipeline.Instance) (*stream.DLQHandlerNode, error) {
+	return s.buildDLQHandlerNode(ctx, pl)
+}
